@@ -268,8 +268,48 @@ def pairs(d):
     return [[k, f2b(v)] for k, v in (d or {}).items()]
 
 
-def encode_cfg(lens, ltype):
-    """read the static configuration back from the constructed objects"""
+def encode_cfg(lens, ltype, cfg=None):
+    """the model's static configuration of a lens.  With `cfg` (the keyword arguments the lens was constructed with)
+    it is derived from those PUBLIC arguments (defaults of LensLikelihood.__init__) and from the public
+    `param_bounds_interpol()` — so that the plumbing of the constructor is part of what the correspondence checks and
+    no private attribute name is relied upon; without `cfg` it is read back from the constructed objects."""
+    if cfg is not None:
+        return encode_cfg_public(lens, ltype, cfg)
+    return encode_cfg_private(lens, ltype)
+
+
+def encode_cfg_public(lens, ltype, cfg):
+    def bound(x):
+        return None if (x is None or math.isinf(x)) else f2b(x)
+    g = cfg.get
+    kmin, kmax = lens.param_bounds_interpol()
+    gpi = g("gamma_pl_index", None)
+    dist = dict(lambdaSampling=g("lambda_mst_distribution", "NONE") in ["GAUSSIAN"], mstIfu=bool(g("mst_ifu", False) is True),
+                prop=f2b(g("lambda_scaling_property", 0)), propBeta=f2b(g("lambda_scaling_property_beta", 0)),
+                gammaInSampling=bool(g("gamma_in_sampling", False)), gammaInGauss=g("gamma_in_distribution", "NONE") in ["GAUSSIAN"],
+                logM2lSampling=bool(g("log_m2l_sampling", False)),
+                gammaInMin=bound(kmin.get("gamma_in")), gammaInMax=bound(kmax.get("gamma_in")),
+                m2lMin=bound(kmin.get("log_m2l")), m2lMax=bound(kmax.get("log_m2l")),
+                gammaPlIndex=gpi,
+                gammaPlGlobalSampling=bool(g("gamma_pl_global_sampling", False) is True),
+                gammaPlGlobalGauss=g("gamma_pl_global_dist", "NONE") in ["GAUSSIAN"])
+    aniso = dict(sampling=bool(g("anisotropy_sampling", False)), model=g("anisotropy_model", "NONE"),
+                 distribution=g("anisotropy_distribution", "NONE"),
+                 aMin=bound(kmin.get("a_ani")), aMax=bound(kmax.get("a_ani")),
+                 bMin=bound(kmin.get("beta_inf")), bMax=bound(kmax.get("beta_inf")))
+    gl = g("global_los_distribution", False)
+    is_global = isinstance(gl, int) and gl is not False
+    indiv = g("los_distribution_individual", None)
+    lcfg = dict(globalIdx=int(gl) if is_global else None,
+                dist=(g("los_distributions") or [])[gl] if is_global else "NONE",
+                individual=bool((not is_global) and indiv is not None))
+    priors = [[p[0], f2b(p[1]), f2b(p[2])] for p in (g("prior_list", None) or [])]
+    return dict(ltype=ltype, dist=dist, aniso=aniso, los=lcfg, kinParams=list(g("kin_scaling_param_list", None) or []),
+                priors=priors, numDraws=int(g("num_distribution_draws", 50)))
+
+
+def encode_cfg_private(lens, ltype):
+    """read the static configuration back from the constructed objects (private state)"""
     ld = lens._lens_distribution
     ad = lens._aniso_distribution
     los = lens._los
